@@ -381,6 +381,23 @@ fn list_inhabited(
                 if items.is_never() {
                     return list_inhabited(prefix_items, items, &neg.next, builder);
                 }
+                // Lists with fewer than neg_len elements are not members of the negated type at all:
+                // one of them that also escapes the remaining negated types is a witness.
+                let never = Rc::new(SemTypeContext::never());
+                for k in len..neg_len {
+                    if k > len && items.is_empty(builder)? {
+                        break;
+                    }
+                    let mut shorter = prefix_items.clone();
+                    for _i in len..k {
+                        shorter.push(items.clone());
+                    }
+                    if let ListInhabited::Yes =
+                        list_inhabited(&mut shorter, &never, &neg.next, builder)?
+                    {
+                        return Ok(ListInhabited::Yes);
+                    }
+                }
                 for _i in len..neg_len {
                     prefix_items.push(items.clone());
                 }
